@@ -180,8 +180,8 @@ PROTO_INV = ["ReqExceptLateConflict", "NoLateConflictInRegular"]
 RABIN_INV = ["ReqExceptLeads"]
 
 
-def proto_consts(n, ts, menu, order, foci, fasts=(False, True)):
-    return dict(ped_consts(("fresh",), n, ts, fasts, maxf=1, menu=menu, order=order), Foci=list(foci))
+def proto_consts(n, ts, menu, order, foci, fasts=(False, True), shapes=("fresh",)):
+    return dict(ped_consts(shapes, n, ts, fasts, maxf=1, menu=menu, order=order), Foci=list(foci))
 
 
 def rabin_consts(n, ts, order):
@@ -191,7 +191,7 @@ def rabin_consts(n, ts, order):
 def c11(ctx):
     q = ctx.quick
     binary = ctx.build(pkg="./cmd/vh-dkg")
-    par = Par(8)
+    par = Par(10 if q else 8)
     f3 = ped_consts(("fresh",), 3, (2, 3))
     f4 = ped_consts(("fresh",), 4, (3, 4))
     shapes = ("same", "overlap", "disjoint", "grow", "shrink", "shrink3")
@@ -202,7 +202,8 @@ def c11(ctx):
     if q:
         # every BFS run below is exhaustive over its menu and checks the requirement invariants while it emits behaviours
         par.go(gen_replay, ctx, binary, "api", "fresh_n3", dict(f3, OrdMode="one"), 3000, workers=3)
-        par.go(gen_replay, ctx, binary, "api", "fresh_n4", dict(f4, OrdMode="one", MenuLvl="small"), 2000, workers=4)
+        par.go(gen_replay, ctx, binary, "api", "fresh_n4_reg", dict(f4, OrdMode="one", MenuLvl="small", Fasts=[False]), 1200, workers=3)
+        par.go(gen_replay, ctx, binary, "api", "fresh_n4_fast", dict(f4, OrdMode="one", MenuLvl="small", Fasts=[True]), 1200, workers=3)
         par.go(gen_replay, ctx, binary, "api", "reshare_honest", dict(rs, OrdMode="glob", MaxF=0), 0)
         par.go(gen_replay, ctx, binary, "api", "reshare_sim", dict(rs, OrdMode="two", MenuLvl="small"), 0,
                simulate="num=150", depth=14)
@@ -218,6 +219,11 @@ def c11(ctx):
         # joiners (OldThreshold <= complaints < Threshold); rabin at t = n (exactly t qualified dealers)
         par.go(gen_replay, ctx, binary, "api", "reshare_raise5", dict(raise5, OrdMode="one"), 0)
         par.go(gen_replay, ctx, binary, "rabin", "rabin_n4t4", rabin_consts(4, (4,), "two"), 0, **R)
+        # Protocol on resharing shapes (old != new group sizes, leaving and joining members), signature verification on,
+        # per-node orders in the justification round (all replayed) and in the deal / response rounds (sampled)
+        pshapes = ("overlap", "shrink3", "grow")
+        par.go(gen_replay, ctx, binary, "proto", "proto_reshare_just", proto_consts(3, (2,), "fcp", "min", ("just",), shapes=pshapes), 0, **P)
+        par.go(gen_replay, ctx, binary, "proto", "proto_reshare_dr", proto_consts(3, (2,), "fcp", "min", ("deal", "resp"), shapes=pshapes), 1500, **P)
         par.go(trace_repo_tests, ctx, "trace_repo_tests")
         par.go(trace_replays, ctx, binary, "trace_n4_sim", ped_consts(("fresh", "overlap", "disjoint"), 4, (3,), maxf=1, menu="small", order="two"), 0,
                simulate="num=40", depth=14)
@@ -244,6 +250,8 @@ def c11(ctx):
         par.go(gen_replay, ctx, binary, "proto", "proto_n3_sim", proto_consts(3, (2,), "proto", "few", ("deal", "resp", "just")), 0,
                simulate="num=200", depth=12, **P, **TO)
         par.go(gen_replay, ctx, binary, "proto", "proto_n4_eq", proto_consts(4, (3,), "eq", "min", ("deal",), fasts=(True,)), 4000, **P, **TO)
+        par.go(gen_replay, ctx, binary, "proto", "proto_reshare", proto_consts(3, (2,), "fc", "min", ("deal", "resp", "just"),
+                                                                              shapes=("overlap", "shrink3", "grow", "same", "shrink")), 0, **P, **TO)
         par.go(gen_replay, ctx, binary, "rabin", "rabin_n3", rabin_consts(3, (2, 3), "two"), 0, **R, **TO)
         par.go(gen_replay, ctx, binary, "rabin", "rabin_n4", rabin_consts(4, (3, 4), "two"), 8000, **R, **TO)
         for n, ts, num in ((5, (3, 4), 400), (6, (4, 5), 300), (7, (4, 5), 120), (8, (5, 6), 80), (9, (5, 6), 60)):
